@@ -115,6 +115,43 @@ func New(id string) *Check {
 	return c
 }
 
+// ReplayDetail returns the "detail" object of the replay artefact given with -replay (nil if none).
+func (c *Check) ReplayDetail() map[string]any {
+	if c.Replay == "" {
+		return nil
+	}
+	b, err := os.ReadFile(c.Replay)
+	if err != nil {
+		c.Fatal("replay file: %v", err)
+	}
+	var r struct {
+		Key    string         `json:"key"`
+		Detail map[string]any `json:"detail"`
+	}
+	if err := json.Unmarshal(b, &r); err != nil {
+		c.Fatal("replay file: %v", err)
+	}
+	fmt.Printf("REPLAY %s\n  key: %s\n", c.Replay, r.Key)
+	if r.Detail == nil {
+		r.Detail = map[string]any{}
+	}
+	r.Detail["__key"] = r.Key
+	return r.Detail
+}
+
+// ReplayChoices extracts the recorded choice sequence of an explorer-based violation.
+func ReplayChoices(d map[string]any) []int {
+	var out []int
+	if l, ok := d["choices"].([]any); ok {
+		for _, x := range l {
+			if f, ok := x.(float64); ok {
+				out = append(out, int(f))
+			}
+		}
+	}
+	return out
+}
+
 func (c *Check) Quick() bool   { return c.Tier == "quick" }
 func (c *Check) Expired() bool { return time.Now().After(c.Deadline) }
 
